@@ -2,6 +2,7 @@
    Only statements; proofs are in Proofs/. *)
 From Coq Require Import List NArith ZArith Permutation.
 Require Import Base Mol Canon Text Pipeline MolProofs SameMol CanonProofs AstOf RoundTrip2.
+Require ParamsSpec.   (* regenerated source constants still match what the model hard-codes *)
 
 (* If two molecules (simple graphs, mass/radical values >= 1) get the same string, one is the other
    under a renaming pi of its atoms that preserves element, mass and radical of every atom and
